@@ -301,7 +301,7 @@ class ReferencedRules(Contract):
     """convert_referenced_rules: one expression per referenced rule, in order, tagged with its name (or id), joined; not configured: None"""
     id = "C10.TextQueryBackend.convert_referenced_rules"
     target = f"{CB}:TextQueryBackend.convert_referenced_rules"
-    props = ("C10",)
+    props = ("C10", "C09")
     cases = (0, 1, 2, 3, "off")
 
     def args(self, I, case):
